@@ -17,6 +17,7 @@ import types
 
 from . import boot
 
+# 'upstream_stall' and 'slow_row' (seconds-long pauses in user code) are generated separately by checks/c18.py
 FAMILIES = ['none', 'slow_producer', 'slow_workers', 'straggler', 'slow_fetcher', 'slow_consumer',
             'late_worker_start', 'uniform', 'bursty']
 
